@@ -369,7 +369,12 @@ pub fn run_case(id: usize, input: &Value) {
 
     let (cfg2, rp, rq, tg, u2, h2) = (config.clone(), rule_path.clone(), rule_query.clone(), target.clone(), url.clone(), host.clone());
     let res = catch(move || {
-        let rule: Rule = serde_json::from_value(json!({"id": "r", "rank": 0, "source": {"path": rp, "query": rq}, "target": tg, "status_code": 301})).expect("rule json");
+        // half of the cases (decided by the input itself): the rule declares a marker which its path and query do not use
+        // (markers used by the host or the target only are common); the literal source must be normalised all the same
+        let unused_marker = (rp.len() + rq.as_ref().map(|q: &String| q.len()).unwrap_or(0)) % 2 == 1;
+        let mut rule_json = json!({"id": "r", "rank": 0, "source": {"path": rp, "query": rq}, "target": tg, "status_code": 301});
+        if unused_marker { rule_json["markers"] = json!([{"name": "qqq9", "regex": "[a-z]+"}]); }
+        let rule: Rule = serde_json::from_value(rule_json).expect("rule json");
         let route = rule.clone().into_route(&cfg2);
         let rule_static = match route.path_and_query() { StaticOrDynamic::Static(s) => Some(s.clone()), StaticOrDynamic::Dynamic(_) => None };
         let req = Request::from_config(&cfg2, u2, h2, None, None, None, None);
